@@ -1334,3 +1334,177 @@ def inline_search_helpers(trees: dict[str, ast.Module]) -> int:
                     break
         ast.fix_missing_locations(t)
     return n
+
+
+# ----------------------------------------------------------------------------------------
+# G0: a new single-use private generator that is consumed whole
+#         return list(self._iter_found(xs))      with      def _iter_found(self, xs): for …: … yield v …
+#     is put back as the accumulator loop:   acc = [];  for …: … acc.append(v) …;  return acc
+
+def inline_listed_generators(trees: dict[str, ast.Module]) -> int:
+    n = 0
+    for t in trees.values():
+        gens = {}
+        for c in [x for x in ast.walk(t) if isinstance(x, ast.ClassDef)] + [t]:
+            for f in c.body:
+                if not (isinstance(f, ast.FunctionDef) and f.name.startswith('_') and not f.name.startswith('__') and not f.decorator_list):
+                    continue
+                ys = [x for x in ast.walk(f) if isinstance(x, (ast.Yield, ast.YieldFrom))]
+                if not ys or any(isinstance(y, ast.YieldFrom) or y.value is None for y in ys):
+                    continue
+                # every yield is a statement of its own; no `return <value>`; no nested function holds a yield
+                stmts_with_yield = [x for x in ast.walk(f) if isinstance(x, ast.Expr) and isinstance(x.value, ast.Yield)]
+                if len(stmts_with_yield) != len(ys):
+                    continue
+                if any(isinstance(x, ast.Return) and x.value is not None for x in ast.walk(f)):
+                    continue
+                if any(isinstance(x, (ast.FunctionDef, ast.Lambda, ast.AsyncFunctionDef)) and x is not f for x in ast.walk(f)):
+                    continue
+                gens[f.name] = (c, f)
+        if not gens:
+            continue
+        for owner in list(ast.walk(t)):
+            for fld in ('body', 'orelse', 'finalbody'):
+                blk = getattr(owner, fld, None)
+                if not (isinstance(blk, list) and blk and isinstance(blk[0], ast.stmt)):
+                    continue
+                for i, st in enumerate(list(blk)):
+                    v = st.value if isinstance(st, (ast.Return, ast.Assign)) else None
+                    if not (isinstance(v, ast.Call) and isinstance(v.func, ast.Name) and v.func.id == 'list' and len(v.args) == 1 and not v.keywords
+                            and isinstance(v.args[0], ast.Call)):
+                        continue
+                    call = v.args[0]
+                    hname = call.func.attr if isinstance(call.func, ast.Attribute) else (call.func.id if isinstance(call.func, ast.Name) else None)
+                    if hname not in gens:
+                        continue
+                    c, f = gens[hname]
+                    uses = sum(1 for tt in trees.values() for x in ast.walk(tt)
+                               if (isinstance(x, ast.Attribute) and x.attr == hname) or (isinstance(x, ast.Name) and x.id == hname))
+                    if uses != 1:
+                        continue
+                    is_method = isinstance(c, ast.ClassDef)
+                    if is_method and not (isinstance(call.func, ast.Attribute) and isinstance(call.func.value, ast.Name)):
+                        continue
+                    b = _bind_call(f, call, skip_self=is_method)
+                    if b is None or not all(isinstance(a, (ast.Name, ast.Attribute, ast.Constant)) for a in b.values()):
+                        continue
+                    if is_method:
+                        b[f.args.args[0].arg] = call.func.value
+                    # parameters must not be re-bound in the generator
+                    stored = {x.id for x in ast.walk(f) if isinstance(x, ast.Name) and isinstance(x.ctx, ast.Store)}
+                    if stored & set(b):
+                        continue
+                    acc = '_acc__' + hname.strip('_')
+                    sub = _SubstNames(b)
+                    body = [sub.visit(copy.deepcopy(s)) for s in f.body if not (isinstance(s, ast.Expr) and isinstance(s.value, ast.Constant))]
+
+                    class Y(ast.NodeTransformer):
+                        def visit_Expr(self, node):
+                            if isinstance(node.value, ast.Yield):
+                                return ast.copy_location(ast.Expr(value=ast.Call(
+                                    func=ast.Attribute(value=ast.Name(id=acc, ctx=ast.Load()), attr='append', ctx=ast.Load()),
+                                    args=[node.value.value], keywords=[])), node)
+                            return node
+
+                        def visit_Return(self, node):
+                            return node
+                    body = [Y().visit(s) for s in body]
+                    if any(isinstance(x, ast.Return) for s in body for x in ast.walk(s)):
+                        continue      # a bare `return` inside the generator would end the caller
+                    init = ast.Assign(targets=[ast.Name(id=acc, ctx=ast.Store())], value=ast.List(elts=[], ctx=ast.Load()))
+                    if isinstance(st, ast.Return):
+                        tail = ast.Return(value=ast.Name(id=acc, ctx=ast.Load()))
+                    else:
+                        tail = ast.Assign(targets=st.targets, value=ast.Name(id=acc, ctx=ast.Load()))
+                    repl = [init] + body + [tail]
+                    for x in repl:
+                        ast.copy_location(x, st)
+                        for y in ast.walk(x):
+                            if isinstance(y, (ast.stmt, ast.expr, ast.ExceptHandler)) and not hasattr(y, 'lineno'):
+                                ast.copy_location(y, st)
+                    blk[i:i + 1] = repl
+                    if f in c.body:
+                        c.body.remove(f)
+                    del gens[hname]
+                    n += 1
+                    break
+        ast.fix_missing_locations(t)
+    return n
+
+
+# ----------------------------------------------------------------------------------------
+# G1: a new single-use private "drain" generator consumed by one for loop
+#         def _pending(self):                         for r in self._pending():            while True:
+#             while True:                                 BODY                      ->         try: r = Q.get_nowait()
+#                 try: yield Q.get_nowait()                                                    except Empty: break
+#                 except Empty: return                                                         BODY
+
+def inline_looped_drain_generators(trees: dict[str, ast.Module]) -> int:
+    n = 0
+    for t in trees.values():
+        gens = {}
+        for c in [x for x in ast.walk(t) if isinstance(x, ast.ClassDef)] + [t]:
+            for f in c.body:
+                if not (isinstance(f, ast.FunctionDef) and f.name.startswith('_') and not f.name.startswith('__') and not f.decorator_list):
+                    continue
+                body = [s for s in f.body if not (isinstance(s, ast.Expr) and isinstance(s.value, ast.Constant))]
+                if len(body) != 1 or not isinstance(body[0], ast.While) or body[0].orelse:
+                    continue
+                w = body[0]
+                if not (isinstance(w.test, ast.Constant) and w.test.value is True) or len(w.body) != 1 or not isinstance(w.body[0], ast.Try):
+                    continue
+                tr = w.body[0]
+                if tr.orelse or tr.finalbody or len(tr.body) != 1 or len(tr.handlers) != 1:
+                    continue
+                y = tr.body[0]
+                h = tr.handlers[0]
+                if not (isinstance(y, ast.Expr) and isinstance(y.value, ast.Yield) and y.value.value is not None):
+                    continue
+                if not (len(h.body) == 1 and (isinstance(h.body[0], ast.Break) or (isinstance(h.body[0], ast.Return) and h.body[0].value is None))
+                        and h.type is not None and h.name is None):
+                    continue
+                gens[f.name] = (c, f, tr, h, y.value.value)
+        if not gens:
+            continue
+        for owner in list(ast.walk(t)):
+            for fld in ('body', 'orelse', 'finalbody'):
+                blk = getattr(owner, fld, None)
+                if not (isinstance(blk, list) and blk and isinstance(blk[0], ast.stmt)):
+                    continue
+                for i, st in enumerate(list(blk)):
+                    if not (isinstance(st, ast.For) and not st.orelse and isinstance(st.target, ast.Name) and isinstance(st.iter, ast.Call)):
+                        continue
+                    call = st.iter
+                    hname = call.func.attr if isinstance(call.func, ast.Attribute) else (call.func.id if isinstance(call.func, ast.Name) else None)
+                    if hname not in gens:
+                        continue
+                    c, f, tr, h, yv = gens[hname]
+                    uses = sum(1 for tt in trees.values() for x in ast.walk(tt)
+                               if (isinstance(x, ast.Attribute) and x.attr == hname) or (isinstance(x, ast.Name) and x.id == hname))
+                    if uses != 1:
+                        continue
+                    is_method = isinstance(c, ast.ClassDef)
+                    if is_method and not (isinstance(call.func, ast.Attribute) and isinstance(call.func.value, ast.Name)):
+                        continue
+                    b = _bind_call(f, call, skip_self=is_method)
+                    if b is None or not all(isinstance(a, (ast.Name, ast.Attribute, ast.Constant)) for a in b.values()):
+                        continue
+                    if is_method:
+                        b[f.args.args[0].arg] = call.func.value
+                    sub = _SubstNames(b)
+                    get = ast.Assign(targets=[ast.Name(id=st.target.id, ctx=ast.Store())], value=sub.visit(copy.deepcopy(yv)))
+                    new_try = ast.Try(body=[get], handlers=[ast.ExceptHandler(type=copy.deepcopy(h.type), name=None, body=[ast.Break()])],
+                                      orelse=[], finalbody=[])
+                    new_loop = ast.While(test=ast.Constant(value=True), body=[new_try] + list(st.body), orelse=[])
+                    ast.copy_location(new_loop, st)
+                    for y2 in ast.walk(new_loop):
+                        if isinstance(y2, (ast.stmt, ast.expr, ast.ExceptHandler)) and not hasattr(y2, 'lineno'):
+                            ast.copy_location(y2, st)
+                    blk[i] = new_loop
+                    if f in c.body:
+                        c.body.remove(f)
+                    del gens[hname]
+                    n += 1
+                    break
+        ast.fix_missing_locations(t)
+    return n
